@@ -4,6 +4,7 @@ package desync
 // (engine-only: crash injection has no native counterpart)
 
 import (
+	"context"
 	"os"
 	"strings"
 	"sync"
@@ -139,4 +140,35 @@ func VerifC08_WriteFault_E() {
 			vAssert(strings.HasPrefix(f, dir+"/"+tmpChunkPrefix), "a failed StoreChunk left a file that is neither the chunk nor a prunable temp file")
 		}
 	}
+}
+
+// VerifC08_InPlaceCrashRerun_E: an in-place extract (AssembleFile on the final path) dies before
+// its k-th file-system mutation; the very same extract is then run again on what is left
+// (partial target, scratch files of the dead run): it completes with the correct output.
+func VerifC08_InPlaceCrashRerun_E() {
+	vSchedFixed(true)
+	vPreempt(0)
+	st := &verifStore{}
+	idx := Index{Index: FormatIndex{FeatureFlags: CaFormatSHA512256, ChunkSizeMin: 1, ChunkSizeAvg: 1, ChunkSizeMax: 1}}
+	blob := []byte{0x41, 0x00, 0x42} // a null chunk in the middle: the null-chunk seed is in play
+	for c := range blob {
+		id := st.add(blob[c : c+1])
+		idx.Chunks = append(idx.Chunks, IndexChunk{ID: id, Start: uint64(c), Size: 1})
+	}
+	dir := vTempDir()
+	target := dir + "/out"
+	if vChoose("prior-garbage", 2) == 1 {
+		os.WriteFile(target, []byte("zzzz"), 0644)
+	}
+	k := vChoose("crash-before-mutation", 10)
+	vCrashAt(k, -1, func() {
+		vCover("post-mortem")
+		_, err := AssembleFile(context.Background(), target, idx, st, nil, AssembleOptions{N: 1})
+		vAssert(err == nil, "the extract that died cannot be re-run to completion on the same target")
+		b, rerr := os.ReadFile(target)
+		vAssert(rerr == nil && string(b) == string(blob), "the re-run extract reported success with wrong output")
+	})
+	_, err := AssembleFile(context.Background(), target, idx, st, nil, AssembleOptions{N: 1})
+	vCover("completed")
+	vAssert(err == nil, "extract from a complete store failed")
 }
